@@ -165,6 +165,12 @@ func genFMA(t *rapid.T, specials bool) C03Case {
 		// is a zero (either sign: FMA is then Mul, the IEEE sign rule applies to exact zero products only), an
 		// infinity, or a finite value at the same end of the range (the sum may come back into range) or anywhere
 		xd, yd := h.GenDigits(t, "re.xd", 25), h.GenDigits(t, "re.yd", 25)
+		if rapid.IntRange(0, 3).Draw(t, "re.pow10") == 0 {
+			// a product that is exactly a power of ten (10^MaxExp less a hair is in range, 10^MaxExp is not; 10^(MinExp-1)
+			// is the smallest magnitude there is)
+			pr := rapid.SampledFrom([][2]string{{"1", "1"}, {"2", "5"}, {"5", "2"}, {"4", "25"}, {"25", "4"}, {"8", "125"}, {"125", "8"}, {"16", "625"}, {"5", "2"}, {"2", "5"}}).Draw(t, "re.pw")
+			xd, yd = pr[0], pr[1]
+		}
 		var target int64 // exponent of x*y up to the normalisation digit
 		if rapid.Bool().Draw(t, "re.low") {
 			target = model.MinExp + int64(rapid.IntRange(-40, 3).Draw(t, "re.off"))
@@ -220,7 +226,10 @@ func genFMA(t *rapid.T, specials bool) C03Case {
 				}
 				// (far enough always exists inside the range: u.exp <= e - 2^32 on the overflow side, u.exp >= e + 2^32 - 1 on
 				// the underflow side, where e is the product's exponent, at least one beyond the end)
-				r := int64(rapid.IntRange(0, 60).Draw(t, "re.ufar"))
+				// (r = 0 on the underflow side is the razor case in which the product's leading digit is 2^32-1 digits
+				// below u's: the library then really aligns 2^32 digits, 2 GB and 10 s a case: enumerated in the thorough tier of
+				// TestC03Grid instead)
+				r := int64(rapid.IntRange(1, 60).Draw(t, "re.ufar"))
 				far := prod.Exp - 1<<32 - r
 				if far < model.MinExp {
 					far = model.MinExp
@@ -710,6 +719,48 @@ func TestC03Grid(t *testing.T) {
 	}
 	h.AddExtra("C03", "giant_sparse_products", cnt)
 	h.AddExtra("C03", "long_tail_addends", c03LongTailAddend(t))
+	if h.Thorough() {
+		// a product exactly 2^32-1 digits below u's leading digit and a receiver of precision MaxPrec = 2^32-1: the
+		// product's leading digit IS the rounding digit (0.6 units of the last place), no sticky bit (9 s, 2 GB)
+		x := h.Spec{F: "f", D: "6", E: model.MinExp + 1, P: 1}.Build()
+		y := h.Spec{F: "f", D: "1", E: model.MinExp + 2, P: 1}.Build()
+		u := h.Spec{F: "f", D: "1", E: 1, P: 1}.Build()
+		z := new(decimal.Decimal).SetPrec(decimal.MaxPrec)
+		z.FMA(x, y, u)
+		mant, exp := z.BitsExp()
+		ok := z.Acc() == decimal.Above && z.MinPrec() == decimal.MaxPrec && exp == 1 && len(mant) == 226050911 && mant[len(mant)-1] == decimal.Word(h.Base/10) && mant[0] == 100000000000000
+		for i := 1; ok && i < len(mant)-1; i++ {
+			ok = mant[i] == 0
+		}
+		if !ok {
+			h.ReportGridFail(t, "C03", h.Failf("giant", "FMA(6e-2147483648, 1e-2147483647, 1) at precision MaxPrec ToNearestEven: accuracy %v, MinPrec %d; the product is 0.6 units of the last place: 1.00..01 (Above)", z.Acc(), z.MinPrec()), []byte(`{"grid":"product-is-the-rounding-digit"}`))
+		}
+		z = nil
+		debug.FreeOSMemory()
+		h.AddExtra("C03", "product_is_rounding_digit_at_maxprec", 1)
+		// the same distance at a small precision: the library adds with the exponents shifted and u at the very end of
+		// the shifted range (a carry there must not be taken for an overflow)
+		for _, tc := range []struct {
+			ud   string
+			m    model.Mode
+			want string
+			acc  model.Acc
+		}{{"1", model.ToPositiveInf, "10001", model.Above}, {"1", model.ToNearestEven, "1", model.Below}, {"99999", model.ToPositiveInf, "1", model.Above}, {"99999", model.ToZero, "99999", model.Below}} {
+			uu := h.Spec{F: "f", D: tc.ud, E: 1, P: 5}.Build()
+			zz := mkRecv(5, uint8(tc.m))
+			zz.FMA(x, y, uu)
+			got := h.Read(zz)
+			wantV := model.MkFinite(false, tc.want, 1)
+			if tc.ud == "99999" && tc.want == "1" {
+				wantV = model.MkFinite(false, "1", 2)
+			}
+			if got.Malformed != "" || !got.Val().Equal(wantV) || model.Acc(got.Acc) != tc.acc {
+				h.ReportGridFail(t, "C03", h.Failf("giant", "FMA(6e-2147483648, 1e-2147483647, 0.%se1) at precision 5 %v: got %v (%v), want %v (%v)", tc.ud, tc.m, got.Val(), model.Acc(got.Acc), wantV, tc.acc), []byte(`{"grid":"product-2^32-1-digits-below"}`))
+			}
+			debug.FreeOSMemory()
+		}
+		h.AddExtra("C03", "product_2^32-1_digits_below_small_precision", 4)
+	}
 	h.AddExtra("C03", "products_beyond_maxprec_digits", c03ProductBeyondMaxPrec(t))
 }
 
